@@ -106,6 +106,16 @@ func (o *order) OnlyAfterSuccess(rule, key string, fn *ssa.Function, aName strin
 		o.r.Missing(rule, key, fmt.Sprintf("no %s found in %s", bName, FuncKey(fn)))
 		return
 	}
+	// the call of a newly extracted helper stands for a call it contains only if the helper cannot succeed without it
+	{
+		var A2 []Site
+		for _, a := range A {
+			if !a.Lifted || a.Must {
+				A2 = append(A2, a)
+			}
+		}
+		A = A2
+	}
 	removed := map[Edge]bool{}
 	tested := 0
 	for _, a := range A {
@@ -194,6 +204,15 @@ func (o *order) Before(rule, key string, fn *ssa.Function, aName string, A []Sit
 	if len(B) == 0 {
 		o.r.Missing(rule, key, fmt.Sprintf("no %s found in %s", bName, FuncKey(fn)))
 		return
+	}
+	{
+		var A2 []Site
+		for _, a := range A {
+			if !a.Lifted || a.Must {
+				A2 = append(A2, a)
+			}
+		}
+		A = A2
 	}
 	for i, b := range B {
 		k := key
